@@ -28,6 +28,7 @@ def _cv(cls):
 
 _CTX_FIELDS = {"_state": 0, "_metrics": 0, "_group": 0, "_token": 1}
 _EXIT_PARAMS = ["exc_type", "exc_val", "exc_tb"]
+_MG = {"MISSING": "(Val.obj 4242)", "Missing": "(Val.cls 90)"}
 _SF = {"_state": 0, "_defaults": 1}
 _QF = {"_loop": 0, "_queue": 1, "_waiting": 2, "_finish_reason": 3}
 _QX = {("self._loop", "create_future"): (116, [])}
@@ -106,6 +107,33 @@ GROUPS = {
              "  case some.inr e => obtain ⟨c, n, rfl, hs⟩ := hl e hr; ss_eval'"),
             ("context_updated_refines", ["gCtxUpdated"], "ContextUpdatedRefines gCtxUpdated",
              "intro xs w hb hu\n  unfold gCtxUpdated\n  cases hv : w.var <;> ss_eval"),
+        ],
+    },
+    "missing": {
+        "import": "Haiway.Bridge.Missing", "open": "Haiway.MiniPy Haiway.Bridge.Missing",
+        "defs": {
+            "gMetaCall": Target("src/haiway/types/missing.py", "MissingType", "__call__", [], {"_instance": 0},
+                                {("super()", "__call__"): (130, [])}),
+            **{f"g{n}": Target("src/haiway/types/missing.py", "Missing", m, ps, {}, {}, globals_=_MG)
+               for n, m, ps in (("Bool", "__bool__", []), ("Eq", "__eq__", ["value"]), ("Reduce", "__reduce__", []),
+                                ("GetAttr", "__getattr__", ["name"]), ("SetAttr", "__setattr__", ["__name", "__value"]),
+                                ("DelAttr", "__delattr__", ["__name"]))},
+            **{f"g{n}": Target("src/haiway/types/missing.py", None, m, ps, {}, {}, globals_=_MG)
+               for n, m, ps in (("IsMissing", "is_missing", ["check"]), ("NotMissing", "not_missing", ["check"]),
+                                ("WhenMissing", "when_missing", ["check", "value"]))},
+        },
+        "obligations": [
+            ("meta_call_singleton", ["gMetaCall"], "MetaCallSingleton gMetaCall",
+             "unfold gMetaCall\n  refine ⟨?_, ?_⟩\n  · intro args w\n    simp [Val.same]; missing_eval\n  · intro k args w\n    missing_eval; simp [Val.same]"),
+            ("bool_false", ["gBool"], "BoolFalse gBool", "intro args w\n  unfold gBool\n  missing_eval"),
+            ("eq_is_identity", ["gEq"], "EqIsIdentity gEq", "intro v w\n  unfold gEq\n  missing_eval"),
+            ("reduce_calls_type", ["gReduce"], "ReduceCallsType gReduce", "intro args w\n  unfold gReduce\n  missing_eval"),
+            *[(f"{n.lower()}_refused", [f"g{n}"], f"RaisesAttributeError g{n}", f"intro args w\n  unfold g{n}\n  missing_eval")
+              for n in ("GetAttr", "SetAttr", "DelAttr")],
+            ("is_missing_identity", ["gIsMissing"], "IsMissingIdentity gIsMissing", "intro v w\n  unfold gIsMissing\n  missing_eval"),
+            ("not_missing_identity", ["gNotMissing"], "NotMissingIdentity gNotMissing", "intro v w\n  unfold gNotMissing\n  missing_eval"),
+            ("when_missing_identity", ["gWhenMissing"], "WhenMissingIdentity gWhenMissing",
+             "intro v d w\n  unfold gWhenMissing\n  by_cases h : v.same theMissing = true <;> missing_eval"),
         ],
     },
     "queue": {
